@@ -81,12 +81,12 @@ checks["C14"]=dict(
    technique="who-may-call rule on the generator + structural must-read / must-derive-from rules on the key, grouping and guard expressions + union-member consumption over the template ASTs",
    design="§3.C14")
 checks["C01"]=dict(
-   text="Generator-side necessary conditions for 'accepted documents decode and round-trip': the JSON key of a field is StructField.Name itself in the Go struct tag and in every key the strict / custom unmarshal templates look up; `omitempty` exactly for non-required fields; Required is set from the schema's own required list / optional marker in the three front-ends; every OpenAPI walker that builds a value type reads `nullable` (one genuine defect fixed: booleans, arrays, objects); integer → integer kind and number → float kind in the JSON-family front-ends; the union (un)marshal templates cover every field / mapping entry, return on the first branch that decodes and join the errors otherwise. Depends on C06 (optional ⇒ pointer) and C10 (numbers canonical).",
+   text="Generator-side necessary conditions for 'accepted documents decode and round-trip': the JSON key of a field is StructField.Name itself in the Go struct tag and in every key the strict / custom unmarshal templates look up; `omitempty` exactly for non-required fields; Required is set from the schema's own required list / optional marker in the three front-ends; every OpenAPI walker that builds a value type reads `nullable` (one genuine defect fixed: booleans, arrays, objects); integer → integer kind and number → float kind in the JSON-family front-ends; the union (un)marshal templates cover every field / mapping entry, return on the first branch that decodes and join the errors otherwise; the same replacement built at several places of a pass sets Nullable the same way; the strict decoder declares the variable receiving a nested decode inside the emitted loop (one genuine defect recorded: OpenAPI number enums get an integer kind). Depends on C06 (optional ⇒ pointer) and C10 (numbers canonical).",
    note="Everything that needs generated code to run against the schema language's own validator is NOT decided: decoding of concrete documents, order of union branches, date-time re-encoding, integer widths vs. ranges, property names needing escapes in struct tags.",
    technique="exact-argument / exact-guard rules on the tag-writing call and the template key actions + sibling agreement of front-end walkers + traversal-completeness rules on the union templates",
    design="§3.C01/C11")
 checks["C11"]=dict(
-   text="Generator-side necessary conditions for 'Python round-trips and agrees with Go on the wire': keys written by to_json and read by from_json are StructField.Name itself; to_json splits unconditional / `is not None` entries exactly on StructField.Required (the property that decides Go's omitempty); from_json reaches nested objects at every depth (shortcuts accept scalars only; struct references → from_json, arrays/maps → value type, unions → discriminator mapping); a nullable value is tested against None before a nested from_json (one finding: demonstrated by running the generated Python).",
+   text="Generator-side necessary conditions for 'Python round-trips and agrees with Go on the wire': keys written by to_json and read by from_json are StructField.Name itself; to_json splits unconditional / `is not None` entries exactly on StructField.Required (the property that decides Go's omitempty); from_json reaches nested objects at every depth (shortcuts accept scalars only; struct references → from_json, arrays/maps → value type, unions → discriminator mapping); a nullable value is tested against None before a nested from_json (one finding: demonstrated by running the generated Python); every discriminator value gets an entry in the decoding map; the dict comprehension of nested maps uses one loop variable per level (one defect fixed); the runtime encoder never tests a to_json() result for truthiness; Go's omitempty rule is re-checked here because the agreement has two sides.",
    note="NOT decided: behaviour of the generated Python on concrete documents, the runtime encoder, equality of the JSON produced by Go and Python, enum member naming.",
    technique="exact-argument rules on the format strings that write JSON keys (key positions recognised between quotes) + sibling agreement with Go's omission rule + traversal-completeness of the from_json generator",
    design="§3.C01/C11")
